@@ -576,6 +576,9 @@ func canonAttrKey(k any) (map[string]any, string) {
 		return map[string]any{"i": v}, fmt.Sprintf("i%020d", v+1<<40)
 	case uint64:
 		return map[string]any{"i": v}, fmt.Sprintf("i%020d", int64(v)+1<<40)
+	case int8, int16, int32, uint, uint8, uint16, uint32:
+		n := normGo(v).(int64)
+		return map[string]any{"i": n}, fmt.Sprintf("i%020d", n+1<<40)
 	}
 	return map[string]any{"other": fmt.Sprintf("%T:%v", k, k)}, fmt.Sprintf("z%T%v", k, k)
 }
